@@ -71,7 +71,7 @@ def dump_hists(module, cfg, rng, limit, **kw):
 # scripts
 def upload_script(h, settle=True, flip=[0]):
     cfg = h[0]
-    lines = ["reset peers=2 chunks=3 maxpar=%d perpeer=%d uto=%d recon=0" % (cfg["maxpar"], cfg["perpeer"], UPLOAD["timeout"]),
+    lines = ["reset mode=up peers=2 chunks=3 maxpar=%d perpeer=%d uto=%d recon=0" % (cfg["maxpar"], cfg["perpeer"], UPLOAD["timeout"]),
              "peer p=1", "peer p=2", "store c=1 ttl=3600", "store c=2 ttl=%d" % UPLOAD["mortal_life"]]
     for a in h[1:]:
         op = a["op"]
@@ -96,7 +96,7 @@ UPLOAD_EXT = ["req p=1 c=1", "req p=1 c=2", "req p=2 c=1", "req p=2 c=3", "ack p
 
 def fetch_script(h, life, settle=True):
     cfg = h[0]
-    lines = ["reset peers=2 chunks=2 flimit=%d alimit=%d binit=%d bmax=%d succ=%d" % (cfg["flimit"], cfg["alimit"], FETCH["binit"], FETCH["bmax"], FETCH["succ"]),
+    lines = ["reset mode=fe peers=2 chunks=2 flimit=%d alimit=%d binit=%d bmax=%d succ=%d" % (cfg["flimit"], cfg["alimit"], FETCH["binit"], FETCH["bmax"], FETCH["succ"]),
              "peer p=1", "peer p=2"] + ["src c=%d ttl=%d" % (c, life[c]) for c in sorted(life)]
     now = 0
     last_ann = {}
@@ -131,7 +131,7 @@ def random_upload_behaviours(rng, n):
     for _ in range(n):
         peers, chunks = rng.randint(1, 4), rng.randint(2, 6)
         uto = rng.choice([0, 1, 2, 2, 3, 5, 30])
-        lines = ["reset peers=%d chunks=%d maxpar=%d perpeer=%d uto=%d recon=%d" % (peers, chunks, rng.choice([0, 1, 1, 2, 2, 3, 5]), rng.choice([0, 1, 1, 2, 2, 3]),
+        lines = ["reset mode=up peers=%d chunks=%d maxpar=%d perpeer=%d uto=%d recon=%d" % (peers, chunks, rng.choice([0, 1, 1, 2, 2, 3, 5]), rng.choice([0, 1, 1, 2, 2, 3]),
                                                                                     uto, rng.choice([0, 0, 1, 2]))]
         for p in range(1, peers + 1):
             r = rng.random()
@@ -186,7 +186,7 @@ def random_fetch_behaviours(rng, n):
         peers, chunks = rng.randint(1, 4), rng.randint(1, 5)
         binit, bmax, succ = rng.choice([0, 1, 1, 2, 3]), rng.choice([0, 1, 4, 4, 5, 60]), rng.choice([0, 1, 2, 2, 3, 15])
         alimit = rng.choice([0, 1, 2, 3, 3, 5, 12])
-        lines = ["reset peers=%d chunks=%d flimit=%d alimit=%d binit=%d bmax=%d succ=%d" % (peers, chunks, rng.choice([0, 1, 1, 2, 2, 3]), alimit, binit, bmax, succ)]
+        lines = ["reset mode=fe peers=%d chunks=%d flimit=%d alimit=%d binit=%d bmax=%d succ=%d" % (peers, chunks, rng.choice([0, 1, 1, 2, 2, 3]), alimit, binit, bmax, succ)]
         for p in range(1, peers + 1):
             r = rng.random()
             lines.append("peer p=%d key=%d link=%d" % (p, 0 if r < 0.08 else 1, 0 if r < 0.35 else 1))
@@ -237,7 +237,7 @@ def events_to_script(events):
     for e in events:
         op = e["op"]
         if op == "reset":
-            lines.append("reset " + " ".join("%s=%d" % (k, e[k]) for k in ("peers", "chunks", "maxpar", "perpeer", "uto", "recon", "flimit", "alimit", "binit", "bmax", "succ")))
+            lines.append("reset mode=%s " % e.get("mode", "all") + " ".join("%s=%d" % (k, e[k]) for k in ("peers", "chunks", "maxpar", "perpeer", "uto", "recon", "flimit", "alimit", "binit", "bmax", "succ")))
         elif op == "peer":
             lines.append("peer p=%d key=%d link=%d" % (e["p"], e.get("key", 1), e.get("link", 1)))
         elif op == "link":
@@ -301,7 +301,7 @@ def run_uploads(chk):
     thorough = chk.tier == "thorough"
     rng = chk.rng
     cfg = "MC_Uploads_full.cfg" if thorough else "MC_Uploads.cfg"
-    r, hists, nstates = dump_hists("Uploads", cfg, rng, 40000 if thorough else 2500, workers=8, timeout=1500 if thorough else 400, heap="6g")
+    r, hists, nstates = dump_hists("Uploads", cfg, rng, 40000 if thorough else 1200, workers=8, timeout=1500 if thorough else 400, heap="6g")
     chk.add_model("Uploads design=>contract (%s: 2 peers x 2 chunks, limits {0,1,2}^2, timeout 2, relative clocks)" % cfg, r,
                   "invariants TypeOK C23_Limits C23_Nak C23_SlotsReleased D_CounterIsMapSize")
     for cfgname, inv in (("dev_dupcounts", "C23_SlotsReleased"), ("reach_dupstart", "Reach_DupStartWhileActive"), ("reach_queued", "Reach_QueuedBehindLimit"),
@@ -314,13 +314,13 @@ def run_uploads(chk):
     res = run_and_validate(chk, UPLOAD, [upload_script(h) for h in hists], "tlc-state-cover")
     stats.append(res["stats"])
     ext = []
-    for h in rng.sample(hists, min(len(hists), 3000 if thorough else 250)):
+    for h in rng.sample(hists, min(len(hists), 3000 if thorough else 120)):
         base = upload_script(h, settle=False)
         for a in UPLOAD_EXT:
             ext.append(base + [a, "tick", "adv ms=%d" % ((UPLOAD["timeout"] + 1) * TICK_MS), "tick"])
     res = run_and_validate(chk, UPLOAD, ext, "tlc-transition-cover")
     stats.append(res["stats"])
-    res = run_and_validate(chk, UPLOAD, random_upload_behaviours(rng, 6000 if thorough else 500), "random")
+    res = run_and_validate(chk, UPLOAD, random_upload_behaviours(rng, 6000 if thorough else 400), "random")
     stats.append(res["stats"])
     need(stats, ["sends", "dupsends", "nakdue", "releasedue", "atlimit"], "upload")
     chk.assumptions += [
@@ -335,7 +335,7 @@ def run_fetches(chk):
     rng = chk.rng
     cfg = "MC_Fetches_full.cfg" if thorough else "MC_Fetches.cfg"
     life = LIFE[chk.tier]
-    r, hists, nstates = dump_hists("Fetches", cfg, rng, 40000 if thorough else 2500, workers=8, timeout=1500 if thorough else 400, heap="6g")
+    r, hists, nstates = dump_hists("Fetches", cfg, rng, 40000 if thorough else 1200, workers=8, timeout=1500 if thorough else 400, heap="6g")
     chk.add_model("Fetches design=>contract (%s: 2 chunks x 2 peers, limit {0,1,2}, attempt limit {1,3}, back-off 1..4, relative clocks, bounded depth)" % cfg, r,
                   "invariants TypeOK C24_Limit C24_InflightZero C24_Backoff C24_Dropped D_CounterIsInflight")
     for cfgname, inv in (("dev_reannounceleak", "C24_InflightZero"), ("reach_reannounce", "Reach_ReannounceInFlight"), ("reach_exhausted", "Reach_Exhausted"),
@@ -347,13 +347,13 @@ def run_fetches(chk):
     res = run_and_validate(chk, FETCH, [fetch_script(h, life) for h in hists], "tlc-state-cover")
     stats.append(res["stats"])
     ext = []
-    for h in rng.sample(hists, min(len(hists), 3000 if thorough else 250)):
+    for h in rng.sample(hists, min(len(hists), 3000 if thorough else 120)):
         base = fetch_script(h, life, settle=False)
         for a in FETCH_EXT:
             ext.append(base + [a, "tick", "adv ms=%d" % ((FETCH["succ"] + 1) * TICK_MS), "tick"])
     res = run_and_validate(chk, FETCH, ext, "tlc-transition-cover")
     stats.append(res["stats"])
-    res = run_and_validate(chk, FETCH, random_fetch_behaviours(rng, 6000 if thorough else 500), "random")
+    res = run_and_validate(chk, FETCH, random_fetch_behaviours(rng, 6000 if thorough else 400), "random")
     stats.append(res["stats"])
     need(stats, ["requests", "failedsends", "reannounce_inflight", "arrivals", "dropdue", "zerodue", "atlimit", "doubled", "capped"], "fetch")
     chk.assumptions += [
